@@ -583,6 +583,33 @@ def identities_check(ctx, c, outs):
     return None
 
 
+def reuse_check(ctx, c, outs):
+    """coordinates read from ONE Miller object before and after its phase / the phase's lattice is replaced agree with
+    a freshly constructed object holding the same Cartesian data and the final phase"""
+    Atom, Lattice, Structure, LatticeError, Phase, align, Miller, V, mm = _imp()
+    ph = Phase(point_group="1", structure=Structure(lattice=Lattice(base=np.array(c["B"]).reshape(3, 3))))
+    m = Miller(**{c["fmt"]: np.array(c["v"], float).reshape(tuple(c["shape"]) + (3,)), "phase": ph})
+    reads = ("uvw", "hkl", "UVTW", "hkil", "length", "coordinates")
+    for nm in reads:
+        getattr(m, nm)
+    new_struct = Structure(lattice=Lattice(base=np.array(c["B2"]).reshape(3, 3)))
+    if c["edit"] == "structure":
+        m.phase.structure = new_struct
+    elif c["edit"] == "phase":
+        m.phase = Phase(point_group="1", structure=new_struct)
+    else:
+        m.phase.structure.lattice.setLatBase(np.array(c["B2"]).reshape(3, 3))
+    fresh = Miller(xyz=np.array(m.data, copy=True), phase=m.phase.deepcopy())
+    fresh.coordinate_format = m.coordinate_format
+    k = cond(fresh.phase.structure.lattice.base)
+    for nm in reads:
+        a, b = np.asarray(getattr(m, nm), float), np.asarray(getattr(fresh, nm), float)
+        if a.shape != b.shape or np.any(np.abs(a - b) > 1e-9 * k * np.maximum(1.0, np.abs(b))):
+            return (f".{nm} after the in-place edit '{c['edit']}' of the phase is {a.reshape(-1)[:6].tolist()} but a freshly "
+                    f"constructed Miller with the same Cartesian data and phase gives {b.reshape(-1)[:6].tolist()}")
+    return None
+
+
 def roundtrip_check(ctx, c, outs):
     """every format converts to every other and back without change; shapes are kept"""
     Atom, Lattice, Structure, LatticeError, Phase, align, Miller, V, mm = _imp()
@@ -663,6 +690,7 @@ SITES = {
     "identities": sites.Site("identities", "prop", identities_check),
     "roundtrip": sites.Site("roundtrip", "prop", roundtrip_check),
     "reject": sites.Site("reject", "prop", reject_check),
+    "reuse": sites.Site("reuse", "prop", reuse_check),
 }
 PREDICATES = {}
 
@@ -704,6 +732,14 @@ def generate(ctx):
             lattices.append(gen_base(rng, system))
     for _ in range(3 * n_lat):
         lattices.append(gen_dyadic(rng))
+    for li in range(0, len(lattices) - 1, 3):
+        shape = [(1,), (3,), (2, 2)][li % 3]
+        n = int(np.prod(shape))
+        c = {"B": lattices[li]["B"], "B2": lattices[li + 1]["B"], "fmt": ["uvw", "hkl"][li % 2], "shape": list(shape),
+             "v": [[float(x) for x in rng.integers(-4, 5, size=3)] for _ in range(n)],
+             "edit": ["structure", "phase", "lattice_inplace"][(li // 3) % 3]}
+        ctx.count(f"reuse/{c['edit']}", ("ru", c["B"], c["B2"], c["edit"]), nontrivial=True)
+        yield "reuse", c
     for li, lat in enumerate(lattices):
         B = lat["B"]
         dy = lat["system"] == "dyadic"
